@@ -585,6 +585,18 @@ def opEX (args obs : List String) : P String := do
     pure (functional [showBool (decide (64 ≤ n1)), showBool (decide (64 ≤ n2)), showBool (decide (64 ≤ n2))] obs)
   | _ => throw "EX: arity"
 
+/-- `BI <fmt> <rounding> <overflow> <route> [ints] | [codes]` — Python integers of any size stored by value
+(C19: no domain restriction). -/
+def opBI (args obs : List String) : P String := do
+  match args with
+  | [s, n, f, r, o, _route, vs] =>
+    let fmt ← pFmt s n f
+    let r ← pRounding r
+    let o ← pOverflow o
+    let vs ← pList pInt vs
+    pure (functional [showList toString (vs.map (fun (v : Int) => quantize fmt r o (v : Rat)))] obs)
+  | _ => throw "BI: arity"
+
 /-- `UN <op=neg|pos|abs> <fx> [codes] | s n f [codes]` — unary operators build a default-config object. -/
 def opUN (args obs : List String) : P String := do
   match args with
@@ -619,6 +631,7 @@ def dispatch (op : String) (args obs : List String) : P String :=
   | "NC" => opNC args obs
   | "DR" => opDR args obs
   | "SB" => opSB args obs
+  | "BI" => opBI args obs
   | "X18" => opX18 args obs
   | "EX" => opEX args obs
   | "BW" => opBW args obs
